@@ -66,6 +66,8 @@ type simTransport struct {
 	app   *fiber.App
 	plans map[string]*tplan // by token
 	wire  map[string][]byte // if not nil: the body of every request as written to the wire, by token
+	// dialSplit: how much of a planned delay passes before the request is written (0 none, 1 half, 2 all)
+	dialSplit int
 }
 
 type tplan struct {
@@ -77,23 +79,18 @@ type tplan struct {
 var errTransport = errors.New("injected transport error")
 
 func (t *simTransport) RoundTrip(_ *fasthttp.HostClient, req *fasthttp.Request, resp *fasthttp.Response) (bool, error) {
-	var buf bytes.Buffer
-	bw := bufio.NewWriter(&buf)
-	if err := req.Write(bw); err != nil {
-		return false, err
+	tokenOf := func() string {
+		tok := string(req.Header.Peek("X-Token"))
+		if tok == "" {
+			// the fidelity scenario names its requests by the first path segment
+			tok, _, _ = strings.Cut(strings.TrimPrefix(string(req.URI().Path()), "/"), "/")
+		}
+		return tok
 	}
-	_ = bw.Flush()
-	tok := string(req.Header.Peek("X-Token"))
-	if tok == "" {
-		// the fidelity scenario names its requests by the first path segment
-		tok, _, _ = strings.Cut(strings.TrimPrefix(string(req.URI().Path()), "/"), "/")
-	}
-	if t.wire != nil {
-		t.wire[tok] = append([]byte(nil), req.Body()...)
-	}
+	tok0 := tokenOf()
 	var d time.Duration
 	fail := false
-	if p := t.plans[tok]; p != nil {
+	if p := t.plans[tok0]; p != nil {
 		i := p.n
 		if i >= len(p.delays) {
 			i = len(p.delays) - 1
@@ -101,8 +98,29 @@ func (t *simTransport) RoundTrip(_ *fasthttp.HostClient, req *fasthttp.Request, 
 		d, fail = p.delays[i], p.fails[i]
 		p.n++
 	}
+	// part of the delay passes before the request is put on the wire (the connection is being
+	// established), the rest while the answer is awaited
+	pre := d * time.Duration(t.dialSplit) / 2
+	d -= pre
+	if pre > 0 {
+		simrt.Yield(602)
+		simrt.Sleep(pre)
+	}
+	var buf bytes.Buffer
+	bw := bufio.NewWriter(&buf)
+	if err := req.Write(bw); err != nil {
+		return false, err
+	}
+	_ = bw.Flush()
+	tok := tokenOf()
+	if tok != tok0 {
+		t.s.Fail("C18.request-changed-in-flight", "the request handed to the transport as %q reads as %q by the time the connection is up (%v later): the request object was released and reused while its send was still pending, the server receives another request's data", tok0, tok, pre)
+	}
+	if t.wire != nil {
+		t.wire[tok] = append([]byte(nil), req.Body()...)
+	}
 	if t.s.Tracing() {
-		t.s.Logf("transport %s attempt delay=%v fail=%v", tok, d, fail)
+		t.s.Logf("transport %s attempt dial=%v delay=%v fail=%v", tok, pre, d, fail)
 	}
 	simrt.Yield(600)
 	simrt.Sleep(d)
@@ -163,7 +181,8 @@ func clientHandoff(s *simrt.Sim, info *harness.RunInfo) {
 	cliTimeout := simrt.PickS(s, 0, 2*time.Second, time.Second)
 	useRetry := s.Chance(250)
 	preempt := simrt.PickS(s, 150, 400, 50, 0)
-	cfgLine := fmt.Sprintf("handoff faults=%v tasks=%d clientTimeout=%v retry=%v preempt=%d", faults, ntasks, cliTimeout, useRetry, preempt)
+	dialSplit := simrt.PickS(s, 0, 1, 2, 0) // how much of a transport delay passes before the request is written: none, half, all
+	cfgLine := fmt.Sprintf("handoff faults=%v tasks=%d clientTimeout=%v retry=%v preempt=%d dialSplit=%d", faults, ntasks, cliTimeout, useRetry, preempt, dialSplit)
 	s.Logf("cfg %s", cfgLine)
 
 	app := fiber.New()
@@ -176,7 +195,7 @@ func clientHandoff(s *simrt.Sim, info *harness.RunInfo) {
 		return c.Redirect().Status(302).To("/echo")
 	})
 	app.Handler()
-	tr := &simTransport{s: s, app: app, plans: map[string]*tplan{}}
+	tr := &simTransport{s: s, app: app, plans: map[string]*tplan{}, dialSplit: dialSplit}
 	cl := client.NewWithClient(&fasthttp.Client{Transport: tr})
 	if cliTimeout > 0 {
 		cl.SetTimeout(cliTimeout)
